@@ -449,6 +449,18 @@ def rule_clear_resets(em, rep, rid):
     for k in sorted(containers):
         key = 'engine.YP.clear:%s' % k
         if k in fc:
+            v = fc[k][1].value
+            alias = None
+            if isinstance(v, ast.Attribute) and is_self_attr(v):
+                alias = 'self.%s' % v.attr
+            elif isinstance(v, ast.Name) and v.id not in ('None',) and em.repo.module_binding(em.engine, v.id) is not None and \
+                    em.repo.module_binding(em.engine, v.id)[0] == 'var':
+                alias = 'the module-level object %s' % v.id
+            if alias:
+                rep.violation(rid, key, 'clear() does not make a new %s: it makes it the very object %s, so whatever is stored in it '
+                              'afterwards (loaded or registered definitions, facts) is also stored in that object and is back '
+                              'after the next clear()' % (k, alias), clear.loc(fc[k][1]))
+                continue
             rep.ok(rid, key, 'reset by clear()', clear.loc(fc[k][1]))
         else:
             rep.violation(rid, key, 'clear() does not reset %s: its contents survive clear()' % k, clear.loc())
@@ -658,6 +670,59 @@ def rule_findall_shape(em, rep, rid):
         rep.violation(rid, key + ':unify', 'the bag is unified before the goal has been exhausted', f.loc(unis[0]))
         return
     rep.ok(rid, key + ':unify', 'one unification with the bag, after the collection', f.loc(unis[0]))
+
+
+def rule_eq_is_unify(em, rep, rid):
+    rep.rule(rid, 'the = builtin is the general unifier applied to its own two arguments: every iterator it runs or returns is a '
+                  'call of the function that loaded code knows as unify, on the two parameters (as given, or dereferenced) - no '
+                  'shortcut that calls the unify method of one side directly, which skips the dereferencing and the '
+                  'self-binding test the general unifier does first')
+    b = [x for x in em.builtins() if x['name'] == '=']
+    if not b or b[0]['func'] is None:
+        raise AnalysisError('anchor vanished: builtin = is not registered')
+    root = em.engine.functions.get('unify')
+    if root is None:
+        raise AnalysisError('anchor vanished: engine.unify')
+    keep = (root,) + tuple(g for g in em.engine.functions.values() if g.name == 'get_value')
+    f = em.view(b[0]['func'], keep=keep)
+    params = f.params[1:] if f.is_method else f.params
+    if len(params) != 2:
+        rep.violation(rid, f.qname, '= does not take two arguments', f.loc())
+        return
+
+    def origin(e, depth=0):
+        """which parameter an expression stands for (through get_value and local copies)"""
+        if depth > 4:
+            return None
+        if is_name(e) and e.id in params:
+            return e.id
+        if isinstance(e, ast.Call) and is_deref_call_local(em, f, e) and e.args:
+            return origin(e.args[0], depth + 1)
+        if is_name(e):
+            defs = [s_ for s_ in own_nodes(f.node) if isinstance(s_, ast.Assign) and any(is_name(t, e.id) for t in s_.targets)]
+            outs = {origin(s_.value, depth + 1) for s_ in defs}
+            if len(outs) == 1:
+                return outs.pop()
+        return None
+    n = 0
+    for c in own_nodes_ordered(f.node):
+        if not isinstance(c, ast.Call) or not em.is_binder_call(f, c):
+            continue
+        n += 1
+        key = '%s:%s' % (f.qname, norm(c)[:50])
+        cs = em.cg.resolve_callable(f, c.func)
+        if cs and all(x is root for x in cs) and len(c.args) == 2 and {origin(a) for a in c.args} == set(params):
+            rep.ok(rid, key, 'the general unifier on the two arguments', f.loc(c))
+        else:
+            rep.violation(rid, key, 'X = Y is not decided by unify(X, Y): %s is run instead, so = can bind where unification would '
+                          'only compare (or miss the case that both sides are the same variable)' % norm(c)[:40], f.loc(c))
+    if not n:
+        rep.violation(rid, f.qname, '= never unifies its arguments', f.loc())
+
+
+def is_deref_call_local(em, f, e):
+    from .eng import is_deref_call
+    return is_deref_call(e)
 
 
 def rule_neq(em, rep, rid):
